@@ -123,7 +123,8 @@ def build(rule, rnd):
         key = S(name)
         key = key.lower() if rnd.random() < 0.5 else key
         pv = [py_value(v) for v in vals]
-        kw[key] = pv[0] if (len(pv) == 1 and rnd.random() < 0.5) else pv
+        # a part may be given as a scalar, a list or a tuple
+        kw[key] = pv[0] if (len(pv) == 1 and rnd.random() < 0.5) else (tuple(pv) if rnd.random() < 0.3 else pv)
     if rnd.random() < 0.5 and not any("-" in k for k in kw):
         return vRecur(**kw)
     return vRecur(kw)
